@@ -139,21 +139,27 @@ class Gen:
         mode = r.choice(["mixed", "mixed", "chains", "churn"])
         while len(ops) < self.nops:
             x = r.random()
-            if self.recent_deleted and x < 0.30:
+            if self.recent_deleted and x < 0.5:
                 # delete-then-reinsert: same key, a colliding one, or an unrelated one
                 y = r.random()
                 k = self.recent_deleted[-1] if y < 0.5 else self.colliding_key() if y < 0.8 else self.key()
                 self.recent_deleted.clear()
                 ops.append(self.put_op(k))
-            elif mode == "chains" and x < 0.55:
-                ops.append(self.put_op(self.colliding_key()))
-            elif x < (0.62 if mode == "churn" else 0.50):
-                k = self.positional_key() if r.random() < 0.6 else self.live_key() if r.random() < 0.7 else self.key()
+                continue
+            x = r.random()
+            p_put = {"mixed": 0.45, "chains": 0.55, "churn": 0.38}[mode]
+            if x < p_put:
+                y = r.random()
+                if mode == "chains" and y < 0.7:
+                    k = self.colliding_key()
+                else:
+                    k = self.live_key() if y < 0.35 else self.key()
+                ops.append(self.put_op(k))
+            elif x < p_put + 0.30:
+                y = r.random()
+                k = self.positional_key() if y < 0.65 else self.live_key() if y < 0.92 else self.key()
                 self.note_del(k)
                 ops.append("d:%d" % k)
-            elif x < 0.80:
-                k = self.live_key() if r.random() < 0.5 else self.key()
-                ops.append(self.put_op(k))
             else:
                 k = self.live_key() if r.random() < 0.6 else self.key()
                 ops.append("g:%d" % k)
